@@ -37,6 +37,7 @@ import IbicusModel.Lemmas.GenDebWin
 #print axioms Props.C03.cdft_ssr_fixed_point_rw
 #print axioms Props.C03.qdm_fixed_point_rw_years
 #print axioms Props.C03.dc_identity_rw
+#print axioms Props.C03.dc_identity_rw_inferred
 -- the interpolation / quantile inverse lemmas (Lemmas/StatsInverse.lean)
 #print axioms Lemmas.Stats.interp_quantile_id
 #print axioms Lemmas.Stats.quantile_interp_id
